@@ -573,6 +573,8 @@ class VSocket:
 
     def connect(self, addr):
         s = self.net.s
+        if self.closed:             # (a closed socket has no descriptor: nothing goes out)
+            raise OSError(_errno.EBADF, "Bad file descriptor")
         self.remote = addr
         self.net.dials.append(self)
         r = self.net.on_connect(self, addr)
